@@ -11,7 +11,7 @@ META = {
              'count, outcome); non-trivial when the library changed state, raised or warned.'),
     'exhaustive_part': 'item-level grid up to the stated bounds (quick n<=4, thorough n<=5); fuzz part is sampled',
     'workers': {'quick': 12, 'thorough': 16},
-    'watchdog': {'quick': 300, 'thorough': 1800},
+    'watchdog': {'quick': 600, 'thorough': 3600},
     'assumptions': ['stories with duplicate item IDs are outside the order claim (conservation still checked)'],
 }
 
